@@ -42,7 +42,14 @@ def run(tier, seed, replay):
         rep.count("outcome." + outcome)
         if outcome and outcome[0].isupper():
             kind = name.split(":")[0]
-            rep.violation("%s:%s:%s" % (kind, outcome, chain or "?"), "with allocation #%d failing, scenario %s: %s" % (k, name, outcome),
+            kchain = chain or "?"
+            if kchain.startswith("jansson*"):
+                # the failing allocation is inside jansson: the defect is identified by jansson's public entry point,
+                # whichever libjwt function happened to call it
+                fr = kchain.split("<")
+                keep = [f for i, f in enumerate(fr) if all(x.startswith(("jansson*", "json_")) for x in fr[:i + 1])]
+                kchain = "<".join(keep)
+            rep.violation("%s:%s:%s" % (kind, outcome, kchain), "with allocation #%d failing, scenario %s: %s" % (k, name, outcome),
                           dict(scenario=name, k=k, n=scen.get(si, {}).get("n"), chain=chain, got=e[5] if len(e) > 5 else None, baseline=e[6] if len(e) > 6 else None))
     for cr in crashes:
         case = cr.get("case") or {}
